@@ -3,6 +3,8 @@
 # suite green in a scratch worktree, applies it to /repo, runs the quick checks of every property whose code it touches,
 # and undoes it. Any VIOLATION here is either a mistake in the change (the property does not hold after all) or a false alarm.
 export GOFLAGS=-mod=mod GOPROXY=off GOSUMDB=off GOTOOLCHAIN=local
+# a build cache of its own: trimming it must not pull files away from under other jobs (sub-agents building in /tmp)
+export GOCACHE=${GOCACHE:-$HOME/.cache/go-build-verif}
 # every changed tree adds ~0.5-1 GB of build cache: keep it bounded (the disk filled up once)
 [ "$(du -sm ${GOCACHE:-$HOME/.cache/go-build} 2>/dev/null | cut -f1)" -gt 30000 ] 2>/dev/null && go clean -cache
 d=$(realpath $1)
